@@ -27,7 +27,11 @@ public:
   MANIF_TANGENT_TYPEDEF
   MANIF_INHERIT_TANGENT_OPERATOR
 
-  using AngBlock = typename DataType::template FixedSegmentReturnType<3>::Type;
+  // a const view (Eigen::Map<const X>) only hands out const blocks
+  using AngBlock = typename std::conditional<
+    Base::IsConstView,
+    typename DataType::template ConstFixedSegmentReturnType<3>::Type,
+    typename DataType::template FixedSegmentReturnType<3>::Type>::type;
   using ConstAngBlock = typename DataType::template ConstFixedSegmentReturnType<3>::Type;
 
   // Tangent common API
